@@ -449,6 +449,22 @@ pub fn catch<T>(f: impl FnOnce() -> T) -> Result<T, (String, String)> {
     }
 }
 
+/// Called (once) by the watchdog when one execution runs longer than the per-execution limit: gets the
+/// harness name and the choice prefix of the stuck execution. Installed by `report::run`; expected not
+/// to return (it reports a violation and exits the process).
+pub type HangHook = Box<dyn Fn(&str, &[Pre], u64) + Send + Sync>;
+
+static HANG_HOOK: Mutex<Option<HangHook>> = Mutex::new(None);
+
+pub fn set_hang_hook(h: HangHook) {
+    *HANG_HOOK.lock().unwrap_or_else(|e| e.into_inner()) = Some(h);
+}
+
+/// Per-execution wall limit in seconds (`VERIF_EXEC_TIMEOUT`, default 180; 0 disables the watchdog).
+pub fn exec_timeout_s() -> u64 {
+    std::env::var("VERIF_EXEC_TIMEOUT").ok().and_then(|s| s.parse().ok()).unwrap_or(180)
+}
+
 struct RunResult {
     trace: Vec<Point>,
     log: u64,
@@ -547,10 +563,39 @@ where
         found: BTreeMap::new(),
     });
     let deadline = cfg.time_limit.map(|d| t0 + d);
+    let slots: Vec<Mutex<Option<(Instant, Vec<Pre>)>>> = (0..cfg.threads).map(|_| Mutex::new(None)).collect();
+    let finished = std::sync::atomic::AtomicBool::new(false);
+    let next_slot = std::sync::atomic::AtomicUsize::new(0);
+    let limit = exec_timeout_s();
 
     std::thread::scope(|scope| {
-        for _ in 0..cfg.threads {
+        if limit > 0 {
+            // watchdog: an execution that never returns (a hang in the code under test) must become a
+            // verdict, not a stuck check
             scope.spawn(|| {
+                while !finished.load(std::sync::atomic::Ordering::SeqCst) {
+                    std::thread::sleep(Duration::from_millis(500));
+                    for s in &slots {
+                        let stuck = {
+                            let g = s.lock().unwrap_or_else(|e| e.into_inner());
+                            match &*g {
+                                Some((t, p)) if t.elapsed().as_secs() >= limit => Some((p.clone(), t.elapsed().as_secs())),
+                                _ => None,
+                            }
+                        };
+                        if let Some((prefix, secs)) = stuck {
+                            if let Some(h) = HANG_HOOK.lock().unwrap_or_else(|e| e.into_inner()).as_ref() {
+                                h(&cfg.name, &prefix, secs);
+                            }
+                        }
+                    }
+                }
+            });
+        }
+        let mut handles = Vec::new();
+        for _ in 0..cfg.threads {
+            handles.push(scope.spawn(|| {
+                let my_slot = next_slot.fetch_add(1, std::sync::atomic::Ordering::SeqCst);
                 loop {
                     let prefix = {
                         let mut g = shared.lock().unwrap();
@@ -572,7 +617,9 @@ where
                     let plen = prefix.len();
                     let n_before = acc.lock().unwrap().stats.executions;
                     let want_desc = n_before < 3 || (n_before & (n_before - 1)) == 0;
+                    *slots[my_slot].lock().unwrap_or_else(|e| e.into_inner()) = Some((Instant::now(), prefix.clone()));
                     let r = run_one(&body, prefix, true, want_desc);
+                    *slots[my_slot].lock().unwrap_or_else(|e| e.into_inner()) = None;
                     if r.trace.len() < plen {
                         machinery(format!(
                             "harness {}: execution shorter than its replay prefix ({} < {plen})",
@@ -692,8 +739,15 @@ where
                     }
                     cv.notify_all();
                 }
-            });
+            }));
         }
+        for h in handles {
+            if let Err(p) = h.join() {
+                finished.store(true, std::sync::atomic::Ordering::SeqCst);
+                panic::resume_unwind(p);
+            }
+        }
+        finished.store(true, std::sync::atomic::Ordering::SeqCst);
     });
 
     let sh = shared.into_inner().unwrap();
